@@ -236,24 +236,45 @@ def uniqRands (quantity maxval : Nat) (r : Nat → Nat) : Option (List Nat) :=
 
 /-! ### micro-steps of one iteration of processInFlightQueue
 
-In the Go code one iteration is TWO critical sections: `PeekAndShift` under `inFlightMutex`, then —
-after the lock was released (hook point `chan.scan.afterPQPop`) — `popInFlightMessage(msg.clientID,
-msg.ID)`, which reads the CURRENT `clientID` field of the shared `*Message`. Other API calls can
-run in between. -/
+`fixed = false` — the code before fix F16: one iteration is TWO critical sections: `PeekAndShift`
+under `inFlightMutex`, then — after the lock was released (hook point `chan.scan.afterPQPop`) —
+`popInFlightMessage(msg.clientID, msg.ID)`, which reads the CURRENT `clientID` field of the shared
+`*Message`. Other API calls can run in between.
+`fixed = true` — the code after F16: the heap pop and the map delete are one critical section (the
+map entry is deleted only if it still is that very object); what remains after the hook point is
+the hand-over to `put`, which touches neither the heap nor the map. -/
 
-/-- first critical section: pop the heap; the scan now holds a pointer to the message (its id) -/
-def scanPopPQ (c : Chan) (t : Int) : Chan × Option E :=
+/-- first critical section; the scan now holds a pointer to the message (its id) -/
+def scanPopPQ (fixed : Bool) (c : Chan) (t : Int) : Chan × Option E :=
   match peekAndShift1 c.ifpq t with
   | none => (c, none)
-  | some (pq, e) => ({ c with ifpq := pq }, some e)
+  | some (pq, e) =>
+    if fixed then
+      (match lookup c.ifmap e.id with
+       | none => ({ c with ifpq := pq }, none)
+       | some _ => ({ c with ifpq := pq, ifmap := erase c.ifmap e.id }, some e))
+    else ({ c with ifpq := pq }, some e)
 
-/-- second critical section + `put`: the map entry of that id is removed if there is one — the
+/-- the rest of the iteration. Unfixed: the map entry of that id is removed if there is one — the
 ownership test compares the object's current `clientID` with itself, so it always passes — and
-the message is handed to `put`. Returns whether it was released. -/
-def scanFinishPop (c : Chan) (id : Nat) : Chan × Bool :=
-  match lookup c.ifmap id with
-  | none => (c, false)
-  | some _ => ({ c with ifmap := erase c.ifmap id, ready := c.ready ++ [id] }, true)
+the message is handed to `put`. Fixed: `put` only. Returns whether it was released. -/
+def scanFinishPop (fixed : Bool) (c : Chan) (id : Nat) : Chan × Bool :=
+  if fixed then ({ c with ready := c.ready ++ [id] }, true)
+  else match lookup c.ifmap id with
+    | none => (c, false)
+    | some _ => ({ c with ifmap := erase c.ifmap id, ready := c.ready ++ [id] }, true)
+
+/-- A history in which deliveries come from the queue: `inflight … id …` (the pump taking a message
+and calling `StartInFlightTimeout`) is possible only for an id that `put` received and that was
+not taken yet; it takes it. All other operations as in `step`. -/
+def stepQ (maxMsgTimeout : Int) (c : Chan) : Op → Chan
+  | .inflight now id client timeout =>
+    if c.ready.contains id then
+      (startInFlight { c with ready := c.ready.erase id } now id client timeout).1
+    else c
+  | op => step maxMsgTimeout c op
+
+def runQ (maxMsgTimeout : Int) (c : Chan) (ops : List Op) : Chan := ops.foldl (stepQ maxMsgTimeout) c
 
 /-- the current in-flight deadline of a message, if it is in the heap -/
 def deadlineOf (c : Chan) (id : Nat) : Option Int :=
